@@ -129,14 +129,18 @@ type Machine struct {
 	root    *Scope
 	Globals *Table
 
-	steps     int64 // micro-steps so far
-	hostSteps int64
-	faultKind int
-	faultAt   int64
-	fired     bool
-	FiredCtx  string // context signature at the abort point
-	MaxSteps  int64
-	StoreRTL  bool // multiple assignment stores right-to-left
+	steps      int64 // micro-steps so far
+	hostSteps  int64
+	faultKind  int
+	faultAt    int64
+	fired      bool
+	fault2Kind int
+	fault2At   int64
+	fired2     bool
+	Fired2Ctx  string
+	FiredCtx   string // context signature at the abort point
+	MaxSteps   int64
+	StoreRTL   bool // multiple assignment stores right-to-left
 
 	cur       *thread
 	main      *thread
@@ -156,7 +160,9 @@ type Result struct {
 	Steps     int64
 	HostSteps int64
 	Fired     bool
+	Fired2    bool
 	FiredCtx  string
+	Fired2Ctx string
 	TopError  string
 	Cancelled bool
 	Runaway   bool
@@ -182,8 +188,10 @@ func (m *Machine) ctxSig() string {
 	return strings.Join(out, ">")
 }
 
-func (m *Machine) faultValue() Value {
-	switch m.faultKind {
+func (m *Machine) faultValue() Value { return faultValueOf(m.faultKind) }
+
+func faultValueOf(kind int) Value {
+	switch kind {
 	case FaultHostTable:
 		return NewTable()
 	case FaultHostNumber:
@@ -216,6 +224,16 @@ func (m *Machine) step() {
 		}
 		m.raise(m.faultValue())
 	}
+	// the second fault of a two-fault run: it can fire only after the first one has
+	if m.fired && !m.fired2 && m.fault2At == m.steps && m.fault2Kind != FaultNone && !IsHostKind(m.fault2Kind) {
+		m.fired2 = true
+		m.Fired2Ctx = m.ctxSig()
+		if m.fault2Kind == FaultCancel {
+			m.Cancelled = true
+			panic(cancelSignal{})
+		}
+		m.raise(faultValueOf(m.fault2Kind))
+	}
 }
 
 // hostStep is the micro-step of a host function call; host-originated faults
@@ -227,6 +245,11 @@ func (m *Machine) hostStep() {
 		m.fired = true
 		m.FiredCtx = m.ctxSig()
 		m.raise(m.faultValue())
+	}
+	if m.fired && !m.fired2 && IsHostKind(m.fault2Kind) && m.fault2At == m.hostSteps {
+		m.fired2 = true
+		m.Fired2Ctx = m.ctxSig()
+		m.raise(faultValueOf(m.fault2Kind))
 	}
 }
 
@@ -399,13 +422,17 @@ func isPlain(s string) bool {
 type Options struct {
 	FaultKind int
 	FaultAt   int64 // micro-step (or host-call micro-step for host kinds); 0 = none
-	StoreRTL  bool
-	MaxSteps  int64
+	// a second fault, which fires only after the first one has (Fault2At counts micro-steps, or host-call micro-steps
+	// for host kinds, from the start of the run like FaultAt); 0 = none
+	Fault2Kind int
+	Fault2At   int64
+	StoreRTL   bool
+	MaxSteps   int64
 }
 
 // Run executes the program from a fresh machine.
 func Run(p *ir.Program, opt Options) *Result {
-	m := &Machine{ids: map[Value]int{}, faultKind: opt.FaultKind, faultAt: opt.FaultAt, StoreRTL: opt.StoreRTL, MaxSteps: opt.MaxSteps, chunkName: ir.ChunkName}
+	m := &Machine{ids: map[Value]int{}, faultKind: opt.FaultKind, faultAt: opt.FaultAt, fault2Kind: opt.Fault2Kind, fault2At: opt.Fault2At, StoreRTL: opt.StoreRTL, MaxSteps: opt.MaxSteps, chunkName: ir.ChunkName}
 	if opt.FaultAt == 0 {
 		m.faultKind = FaultNone
 	}
@@ -433,7 +460,7 @@ func Run(p *ir.Program, opt Options) *Result {
 		m.callClosure(chunk, nil)
 	}()
 	m.killAll()
-	res := &Result{Trace: m.Trace, Steps: m.steps, HostSteps: m.hostSteps, Fired: m.fired, FiredCtx: m.FiredCtx, TopError: m.TopError, Cancelled: m.Cancelled, Runaway: m.Runaway}
+	res := &Result{Trace: m.Trace, Steps: m.steps, HostSteps: m.hostSteps, Fired: m.fired, Fired2: m.fired2, FiredCtx: m.FiredCtx, Fired2Ctx: m.Fired2Ctx, TopError: m.TopError, Cancelled: m.Cancelled, Runaway: m.Runaway}
 	res.TraceHash = HashTrace(m.Trace, m.TopError)
 	return res
 }
@@ -1217,7 +1244,7 @@ type SessionResult struct {
 // numeric arguments. It returns the combined transcript (emits interleaved with
 // one line per schedule step). A fault (opt) may strike anywhere.
 func RunSchedule(p *ir.Program, bodies []string, sched [][]float64, schedWho []int, opt Options) *Result {
-	m := &Machine{ids: map[Value]int{}, faultKind: opt.FaultKind, faultAt: opt.FaultAt, StoreRTL: opt.StoreRTL, MaxSteps: opt.MaxSteps, chunkName: ir.ChunkName}
+	m := &Machine{ids: map[Value]int{}, faultKind: opt.FaultKind, faultAt: opt.FaultAt, fault2Kind: opt.Fault2Kind, fault2At: opt.Fault2At, StoreRTL: opt.StoreRTL, MaxSteps: opt.MaxSteps, chunkName: ir.ChunkName}
 	if opt.FaultAt == 0 {
 		m.faultKind = FaultNone
 	}
@@ -1297,7 +1324,7 @@ func RunSchedule(p *ir.Program, bodies []string, sched [][]float64, schedWho []i
 		m.Trace = append(m.Trace, fmt.Sprintf("S%d:co%d:%s|%s", i, who, line, strings.Join(sts, ",")))
 	}
 	m.killAll()
-	res := &Result{Trace: m.Trace, Steps: m.steps, HostSteps: m.hostSteps, Fired: m.fired, FiredCtx: m.FiredCtx, TopError: m.TopError, Cancelled: m.Cancelled, Runaway: m.Runaway}
+	res := &Result{Trace: m.Trace, Steps: m.steps, HostSteps: m.hostSteps, Fired: m.fired, Fired2: m.fired2, FiredCtx: m.FiredCtx, Fired2Ctx: m.Fired2Ctx, TopError: m.TopError, Cancelled: m.Cancelled, Runaway: m.Runaway}
 	res.TraceHash = HashTrace(m.Trace, m.TopError)
 	return res
 }
